@@ -5,11 +5,11 @@
    the relativization choices). *)
 From DV Require Import Base.Prelude Model.NameM Model.TokM Model.RdTextM.
 From DV Require Import Proofs.NameValid Proofs.NameText Proofs.TokEsc Proofs.TokTxt Proofs.TokWords
-     Proofs.TokDec Proofs.TokHex Proofs.TokShape Proofs.TokGeneric Proofs.TokUtf8 Proofs.RdTextName Proofs.RdTextAddr Proofs.RdTextBitmap Proofs.RdTextTypes Proofs.RdTextB32 Proofs.RdTextSig Proofs.RdTextEui Proofs.RdTextFmtHex.
+     Proofs.TokDec Proofs.TokHex Proofs.TokShape Proofs.TokGeneric Proofs.TokUtf8 Proofs.RdTextName Proofs.RdTextAddr Proofs.RdTextBitmap Proofs.RdTextTypes Proofs.RdTextB32 Proofs.RdTextSig Proofs.RdTextEui Proofs.RdTextFmtHex Proofs.RdTextTail.
 Open Scope Z_scope.
 
 Definition is_rest (f : tfield) : bool :=
-  match f with FHexRest | FB64Rest _ | FTxtRest | FBitmap => true | _ => false end.
+  match f with FHexRest | FB64Rest _ | FTxtRest | FBitmap | FQOpt | FNamesRest | FB64RestOpt => true | _ => false end.
 
 (* non-empty; the fields that read the rest of the line come last *)
 Fixpoint schema_wf (fs : list tfield) : Prop :=
@@ -43,6 +43,12 @@ Definition val_ok (f : tfield) (v : tval) : Prop :=
   | FEui n, VBytes b => all_bytes b = true /\ length b = n /\ (0 < n)%nat
   | FFmtHex, VBytes t => fmthex_ok t = true
   | FOct16, VInt z => 0 <= z <= 65535
+  | FQOpt, VBytes b => all_bytes b = true /\ zlen b <= 255
+  | FHexStr, VBytes b => all_bytes b = true /\ b <> [] /\ zlen b <= 255
+  | FB64Tok maxlen, VBytes b => all_bytes b = true /\ b <> [] /\ zlen b <= maxlen
+  | FNamesRest, VNames l => Forall (fun n => Valid n /\ AllBytes n) l
+  | FNameNoRel, VName n => Valid n /\ AllBytes n
+  | FB64RestOpt, VBytes b => all_bytes b = true /\ zlen b <= 65535
   | _, _ => False
   end.
 
@@ -52,6 +58,8 @@ Definition style_ok (st : style) : Prop :=
 Definition expect (st : style) (c : pctx) (f : tfield) (v : tval) : res tval :=
   match f, v with
   | FName, VName n => do n' <- name_path st c n; Ok (VName n')
+  | FNameNoRel, VName n => do n' <- name_path st (mkPctx None false None) n; Ok (VName n')
+  | FNamesRest, VNames l => do l' <- map_res (name_path st c) l; Ok (VNames l')
   | _, _ => Ok v
   end.
 
@@ -103,7 +111,9 @@ Lemma rest_bytes_ok decode (enc : list Z) (d : list Z) t R q bl :
   exists t1 s1, get0 (stq q (bl ++ t ++ R)) = Ok (t1, s1) /\ ungot s1 = None /\ tok_plain t1 /\
     (length (inp s1) <= length (inp (stq q (bl ++ t ++ R))))%nat /\
     forall stX, get0 stX = Ok (t1, s1) -> (length (inp s1) <= length (inp stX))%nat ->
-      exists st_end te, rest_bytes decode stX = Ok (VBytes d, st_end) /\
+      forall allow, exists st_end te,
+        (do hs <- concatenate_remaining_identifiers stX allow; do b <- utf8_encode (fst hs); do d' <- decode b; Ok (VBytes d', snd hs))
+        = Ok (VBytes d, st_end) /\
         ungot st_end = Some te /\ is_eol_or_eof te = true.
 Proof.
   intros Hch Hne Hasc Hdec Hbl HR.
@@ -121,7 +131,7 @@ Proof.
     repeat split; reflexivity. }
   split.
   { unfold stq. cbn [inp pend app]. rewrite !app_length. lia. }
-  intros stX HX Hlen. unfold rest_bytes, concatenate_remaining_identifiers, rem_fuel.
+  intros stX HX Hlen allow. unfold concatenate_remaining_identifiers, rem_fuel.
   rewrite cri_unfold. unfold get_unescaped. rewrite HX. cbn [bind fst snd]. unfold unescape. cbn [tesc].
   rewrite has_bs_safe by exact Hsu. cbn [negb bind]. unfold is_eol_or_eof, is_identifier. cbn [ttype tvalue].
   change (tIDENT =? tEOL) with false. change (tIDENT =? tEOF) with false. change (tIDENT =? tIDENT) with true.
@@ -130,7 +140,7 @@ Proof.
   { unfold stq in Hlen. cbn [inp pend app] in Hlen. rewrite app_length in Hlen. lia. }
   unfold stq. cbn [pend app]. rewrite E3. cbn [bind fst snd].
   assert (Hn : is_nil (u ++ w') = false) by (destruct u; [congruence|reflexivity]).
-  rewrite Hn. cbn [negb orb bind fst snd].
+  rewrite Hn. cbn [negb]. rewrite orb_true_r. cbn [negb bind fst snd].
   rewrite utf8_ascii by exact Hasc. cbn [bind]. rewrite Hdec. cbn [bind].
   exists st3, te. split; [reflexivity|]. split; assumption.
 Qed.
@@ -178,10 +188,10 @@ Lemma field_ok sty c f v ftext v' R q bl :
     forall stX, get0 stX = Ok (t1, s1) -> (length (inp s1) <= length (inp stX))%nat ->
       exists raw st_end, parse_field c f stX = Ok (raw, st_end) /\ ctor_field f raw = Ok v' /\
         (is_rest f = false -> exists q', st_end = stq q' R) /\
-        (is_rest f = true -> exists te, ungot st_end = Some te /\ is_eol_or_eof te = true).
+        (is_rest f = true -> (exists te, ungot st_end = Some te /\ is_eol_or_eof te = true) \/ exists q', st_end = stq q' R).
 Proof.
   intros (Hhs & Hbs & HO) Hv Hp He Hbl HR1 HR2.
-  destruct f as [maxv| |tokmax ctormax ne| | |sc| |v6| | | | | |k| |maxc| |en| |]; destruct v as [z|b|n|l|ws]; cbn [val_ok] in Hv; try contradiction;
+  destruct f as [maxv| |tokmax ctormax ne| | |sc| |v6| | | | | |k| |maxc| |en| | | | |bmax| | |]; destruct v as [z|b|n|l|ws|nl]; cbn [val_ok] in Hv; try contradiction;
     cbn [print_field] in Hp; cbn [expect] in He; cbn [is_rest] in HR1, HR2.
   - (* FDec *)
     inversion Hp; subst ftext. inversion He; subst v'. specialize (HR1 eq_refl).
@@ -249,8 +259,8 @@ Proof.
     assert (Hne' : hexlify b <> []) by (destruct b as [|x b]; [congruence|discriminate]).
     destruct (rest_bytes_ok unhexlify (hexlify b) b _ R q bl Hch Hne' Ha (unhexlify_hexlify b Hb) Hbl HR2)
       as (t1 & s1 & G1 & G2 & G3 & G4 & G5).
-    exists t1, s1. split; [exact G1|]. split; [exact G2|]. split; [exact G3|]. split; [exact G4|]. intros stX HX HL. destruct (G5 stX HX HL) as (se & te & P1 & P2 & P3).
-    exists (VBytes b), se. split; [exact P1|]. split; [reflexivity|]. split; [discriminate|]. intros _. exists te. split; assumption.
+    exists t1, s1. split; [exact G1|]. split; [exact G2|]. split; [exact G3|]. split; [exact G4|]. intros stX HX HL. destruct (G5 stX HX HL false) as (se & te & P1 & P2 & P3).
+    exists (VBytes b), se. split; [exact P1|]. split; [reflexivity|]. split; [discriminate|]. intros _. left. exists te. split; assumption.
   - (* FB64Rest *)
     destruct Hv as (Hb & Hne). inversion Hp; subst ftext. inversion He; subst v'. specialize (HR2 eq_refl).
     destruct (b64encode_safe b Hb) as [Hs Ha].
@@ -259,8 +269,8 @@ Proof.
     assert (Hne' : b64encode b <> []) by (destruct b as [|x [|y [|z b]]]; [congruence|discriminate|discriminate|discriminate]).
     destruct (rest_bytes_ok b64decode (b64encode b) b _ R q bl Hch Hne' Ha (b64decode_b64encode b Hb) Hbl HR2)
       as (t1 & s1 & G1 & G2 & G3 & G4 & G5).
-    exists t1, s1. split; [exact G1|]. split; [exact G2|]. split; [exact G3|]. split; [exact G4|]. intros stX HX HL. destruct (G5 stX HX HL) as (se & te & P1 & P2 & P3).
-    exists (VBytes b), se. split; [exact P1|]. split; [reflexivity|]. split; [discriminate|]. intros _. exists te. split; assumption.
+    exists t1, s1. split; [exact G1|]. split; [exact G2|]. split; [exact G3|]. split; [exact G4|]. intros stX HX HL. destruct (G5 stX HX HL false) as (se & te & P1 & P2 & P3).
+    exists (VBytes b), se. split; [exact P1|]. split; [reflexivity|]. split; [discriminate|]. intros _. left. exists te. split; assumption.
   - (* FTxtRest *)
     destruct Hv as (Hne & Hss). inversion Hp; subst ftext. inversion He; subst v'. specialize (HR2 eq_refl).
     destruct l as [|s ss]; [congruence|]. inversion Hss as [|? ? [Hb Hl] Hss']; subst.
@@ -281,7 +291,7 @@ Proof.
     destruct (get_remaining_tail_b _ HQ R (S (length (inp stX))) [mkTok tQUOTED (txt_body u8 s) he None] HR2)
       as (toks & te & st & HF & Hte & Hu & E2).
     { pose proof (txt_tail_b_length (map (txt_body u8) ss) R). unfold stq in HL2. cbn [inp pend app length] in HL2. lia. }
-    exists (VStrs (s :: ss)), st. split; [|split; [reflexivity|split; [discriminate|intros _; exists te; split; assumption]]].
+    exists (VStrs (s :: ss)), st. split; [|split; [reflexivity|split; [discriminate|intros _; left; exists te; split; assumption]]].
     cbn [parse_field]. unfold txt_from_text, get_remaining, rem_fuel. rewrite grl_unfold. rewrite HX. cbn [bind].
     unfold is_eol_or_eof at 1. cbn [ttype]. change (tQUOTED =? tEOL) with false. change (tQUOTED =? tEOF) with false.
     cbn [orb]. rewrite E2. cbn [bind rev app fst snd].
@@ -378,7 +388,7 @@ Proof.
       assert (Hst : exists st2, unget st t = Ok st2 /\ ungot st2 = Some t).
       { unfold unget. rewrite H4. eexists. split; reflexivity. }
       destruct Hst as (st2 & U1 & U2).
-      exists (VWindows ws), st2. split; [|split; [reflexivity|split; [discriminate|intros _; exists t; split; assumption]]].
+      exists (VWindows ws), st2. split; [|split; [reflexivity|split; [discriminate|intros _; left; exists t; split; assumption]]].
       cbn [parse_field]. unfold get_remaining, rem_fuel. rewrite grl_unfold. rewrite HX. cbn [bind]. rewrite H1, U1.
       cbn [bind rev fst snd map_res]. inversion Htt as [Hty]. rewrite Hty, Hrt. reflexivity.
     + inversion Hns as [|? ? [Hne1 Hs1] Hns']; subst.
@@ -398,7 +408,7 @@ Proof.
         rewrite app_length. cbn [length]. unfold spaced in IH. lia. }
       destruct (grl_words names' Hns' false R (S (length (inp stX))) [word_tok n1] HR2) as (te & st & T1 & T2 & E2).
       { unfold stq in HL. cbn [inp pend app] in HL. lia. }
-      exists (VWindows ws), st. split; [|split; [reflexivity|split; [discriminate|intros _; exists te; split; assumption]]].
+      exists (VWindows ws), st. split; [|split; [reflexivity|split; [discriminate|intros _; left; exists te; split; assumption]]].
       cbn [parse_field]. unfold get_remaining, rem_fuel. rewrite grl_unfold. rewrite HX. cbn [bind].
       assert (Heol : is_eol_or_eof (word_tok n1) = false) by reflexivity. rewrite Heol.
       rewrite E2. cbn [bind rev app fst snd].
@@ -510,10 +520,168 @@ Proof.
     intros stX HX _. exists (VInt z), (stq false R). split; [|split; [reflexivity|split; [intros _; exists false; reflexivity|discriminate]]].
     cbn [parse_field]. unfold get_uint, get_unescaped. rewrite HX. cbn [bind fst snd]. unfold unescape. cbn [tesc].
     rewrite has_bs_safe by exact Hs. cbn [negb bind fst snd]. rewrite Ert. reflexivity.
+  - (* FQOpt *)
+    destruct Hv as (Hb & Hl). inversion He; subst v'. specialize (HR2 eq_refl).
+    destruct b as [|x b'].
+    + (* no subaddress: the next token is the end of the line *)
+      cbn [is_nil] in Hp. inversion Hp; subst ftext. cbn [app].
+      destruct (get0_end_q_len q bl R Hbl HR2) as (t & st & H1 & H2 & H3 & H4 & H5 & E).
+      exists t, st. split; [exact E|]. split; [exact H4|]. split.
+      { destruct (eol_not_ws t H1) as [A B]. unfold tok_plain. rewrite A, B, H2. repeat split; reflexivity. }
+      split; [unfold stq; cbn [inp]; rewrite !app_length; lia|].
+      intros stX HX _.
+      assert (Hst : exists st2, unget st t = Ok st2 /\ ungot st2 = Some t).
+      { unfold unget. rewrite H4. eexists. split; reflexivity. }
+      destruct Hst as (st2 & U1 & U2).
+      exists (VBytes []), st2. split; [|split; [reflexivity|split; [discriminate|intros _; left; exists t; split; assumption]]].
+      cbn [parse_field]. unfold get_remaining, rem_fuel. rewrite grl_unfold_m. rewrite HX. cbn [bind]. rewrite H1, U1.
+      cbn [bind rev fst snd]. reflexivity.
+    + cbn [is_nil] in Hp. inversion Hp; subst ftext. set (s := x :: b') in *.
+      destruct (get0_quoted_q q (bl ++ [32]) s R ltac:(rewrite forallb_app, Hbl; reflexivity) Hb) as (he & E).
+      exists (mkTok tQUOTED (escapify s) he None), (stq true R).
+      unfold quote. replace (bl ++ (32 :: 34 :: escapify s ++ [34]) ++ R) with ((bl ++ [32]) ++ 34 :: escapify s ++ 34 :: R)
+        by (rewrite <- !app_assoc; cbn [app]; rewrite <- app_assoc; reflexivity).
+      split; [exact E|]. split; [reflexivity|]. split; [repeat split; reflexivity|]. split.
+      { unfold stq. cbn [inp pend app]. rewrite !app_length. cbn [length]. rewrite app_length. cbn [length]. lia. }
+      intros stX HX _. exists (VBytes s), (stq true R).
+      split; [|split; [|split; [discriminate|intros _; right; exists true; reflexivity]]].
+      * cbn [parse_field]. unfold get_remaining, rem_fuel. rewrite grl_unfold_m. rewrite HX. cbn [bind].
+        unfold is_eol_or_eof at 1. cbn [ttype]. change (tQUOTED =? tEOL) with false. change (tQUOTED =? tEOF) with false.
+        cbn [orb]. change (negb (1 =? 0) && (zlen [mkTok tQUOTED (escapify s) he None] =? 1)) with true. cbv iota.
+        cbn [rev app bind fst snd]. unfold unescape_to_bytes. cbn [tvalue ttype].
+        rewrite unescape_to_bytes_escapify by exact Hb. cbn [bind tvalue]. reflexivity.
+      * cbn [ctor_field]. replace (zlen s >? 255) with false by lia. reflexivity.
+  - (* FHexStr *)
+    destruct Hv as (Hb & Hne & Hl). inversion Hp; subst ftext. inversion He; subst v'. specialize (HR1 eq_refl).
+    destruct (hexlify_safe b Hb) as [Hs Ha].
+    assert (Hn0 : hexlify b <> []) by (destruct b as [|x b']; [congruence|discriminate]).
+    exists (mkTok tIDENT (hexlify b) (has_bs (hexlify b)) None), (stq false R).
+    split; [apply get0_word_q; auto using units_safe|]. split; [reflexivity|]. split.
+    { unfold tok_plain, is_identifier. cbn [ttype tvalue]. rewrite safe_word_not_hash by exact Hs. repeat split; reflexivity. }
+    split; [apply stq_len_word|].
+    intros stX HX _. exists (VBytes b), (stq false R).
+    split; [|split; [|split; [intros _; exists false; reflexivity|discriminate]]].
+    + cbn [parse_field]. unfold get_string, get_unescaped. rewrite HX. cbn [bind fst snd]. unfold unescape. cbn [tesc].
+      rewrite has_bs_safe by exact Hs. cbn [negb bind fst snd]. unfold as_string, is_identifier, is_quoted. cbn [ttype tvalue].
+      change (tIDENT =? tIDENT) with true. change (0 =? 0) with true. cbn [orb negb andb bind fst snd].
+      rewrite utf8_ascii by exact Ha. cbn [bind]. rewrite unhexlify_hexlify by exact Hb. reflexivity.
+    + cbn [ctor_field]. replace (zlen b >? 255) with false by lia. reflexivity.
+  - (* FB64Tok *)
+    destruct Hv as (Hb & Hne & Hl). inversion Hp; subst ftext. inversion He; subst v'. specialize (HR1 eq_refl).
+    destruct (b64encode_safe b Hb) as [Hs Ha].
+    assert (Hn0 : b64encode b <> []) by (destruct b as [|x [|y [|z b']]]; [congruence|discriminate|discriminate|discriminate]).
+    exists (mkTok tIDENT (b64encode b) (has_bs (b64encode b)) None), (stq false R).
+    split; [apply get0_word_q; auto using units_safe|]. split; [reflexivity|]. split.
+    { unfold tok_plain, is_identifier. cbn [ttype tvalue]. rewrite safe_word_not_hash by exact Hs. repeat split; reflexivity. }
+    split; [apply stq_len_word|].
+    intros stX HX _. exists (VBytes b), (stq false R).
+    split; [|split; [|split; [intros _; exists false; reflexivity|discriminate]]].
+    + cbn [parse_field]. unfold get_string, get_unescaped. rewrite HX. cbn [bind fst snd]. unfold unescape. cbn [tesc].
+      rewrite has_bs_safe by exact Hs. cbn [negb bind fst snd]. unfold as_string, is_identifier, is_quoted. cbn [ttype tvalue].
+      change (tIDENT =? tIDENT) with true. change (0 =? 0) with true. cbn [orb negb andb bind fst snd].
+      rewrite utf8_ascii by exact Ha. cbn [bind]. rewrite b64decode_b64encode by exact Hb. reflexivity.
+    + cbn [ctor_field]. replace (zlen b >? bmax) with false by lia. reflexivity.
+  - (* FNamesRest *)
+    specialize (HR2 eq_refl).
+    destruct (map_res (name_to_styled_text sty) nl) as [ts| |] eqn:Ets; cbn [bind] in Hp; try discriminate.
+    inversion Hp; subst ftext. fold (spaced ts).
+    destruct (map_res (name_path sty c) nl) as [nl'| |] eqn:Enp; cbn [bind] in He; try discriminate.
+    inversion He; subst v'.
+    destruct (names_texts sty nl Hv HO ts Ets) as [Hw Hback]. specialize (Hback c). rewrite Enp in Hback.
+    destruct ts as [|t1 ts'].
+    + cbn [spaced flat_map app].
+      destruct (get0_end_q_len q bl R Hbl HR2) as (t & st & H1 & H2 & H3 & H4 & H5 & E).
+      exists t, st. split; [exact E|]. split; [exact H4|]. split.
+      { destruct (eol_not_ws t H1) as [A B]. unfold tok_plain. rewrite A, B, H2. repeat split; reflexivity. }
+      split; [unfold stq; cbn [inp]; rewrite !app_length; lia|].
+      intros stX HX _.
+      assert (Hst : exists st2, unget st t = Ok st2 /\ ungot st2 = Some t).
+      { unfold unget. rewrite H4. eexists. split; reflexivity. }
+      destruct Hst as (st2 & U1 & U2).
+      exists (VNames nl'), st2. split; [|split; [reflexivity|split; [discriminate|intros _; left; exists t; split; assumption]]].
+      cbn [parse_field]. unfold get_remaining, rem_fuel. rewrite grl_unfold. rewrite HX. cbn [bind]. rewrite H1, U1.
+      cbn [bind rev fst snd]. cbn [map] in Hback. rewrite Hback. reflexivity.
+    + inversion Hw as [|? ? [Hu1 Hne1] Hw']; subst.
+      assert (Hshape : bl ++ spaced (t1 :: ts') ++ R = (bl ++ [32]) ++ t1 ++ (spaced ts' ++ R)).
+      { unfold spaced. cbn [flat_map]. rewrite <- ?app_assoc. cbn [app]. rewrite <- ?app_assoc. reflexivity. }
+      rewrite Hshape.
+      pose proof (get0_word_q q (bl ++ [32]) t1 (spaced ts' ++ R)
+                   ltac:(rewrite forallb_app, Hbl; reflexivity) Hu1 Hne1 (spaced_word_end ts' R HR2)) as E.
+      exists (utok t1), (stq false (spaced ts' ++ R)).
+      split; [exact E|]. split; [reflexivity|]. split.
+      { (* a name text is never the generic marker: its first character decides *)
+        unfold tok_plain, is_identifier, utok. cbn [ttype tvalue]. repeat split; try reflexivity.
+        change (tIDENT =? tIDENT) with true. cbn [andb].
+        assert (Hm := Ets). cbn [map_res] in Hm.
+        destruct nl as [|n0 nl0]; [discriminate|]. cbn [map_res] in Hm.
+        destruct (name_to_styled_text sty n0) as [t0| |] eqn:E0; cbn [bind] in Hm; try discriminate.
+        destruct (map_res (name_to_styled_text sty) nl0); cbn [bind] in Hm; try discriminate.
+        inversion Hm; subst t0. inversion Hv as [|? ? [V0 B0] _]; subst.
+        unfold name_to_styled_text in E0.
+        destruct (choose_relativity n0 (s_origin sty) (s_relativize sty)) as [n1| |] eqn:E3; cbn [bind] in E0; try discriminate.
+        inversion E0; subst t1. destruct (choose_relativity_ok _ _ _ _ V0 B0 HO E3) as [V1 B1].
+        destruct (name_text_word n1 V1 B1) as (_ & _ & Hh). exact Hh. }
+      split; [unfold stq; cbn [inp pend app]; rewrite !app_length; cbn [length]; lia|].
+      intros stX HX HL.
+      destruct (grl_uwords ts' Hw' false R (S (length (inp stX))) [utok t1] HR2) as (te & st & T1 & T2 & E2).
+      { assert (Hlen : (length ts' <= length (spaced ts' ++ R))%nat).
+        { clear. rewrite app_length. induction ts' as [|x l IH]; cbn [spaced flat_map length]; [lia|].
+          rewrite app_length. cbn [length]. unfold spaced in IH. lia. }
+        unfold stq in HL. cbn [inp pend app] in HL. lia. }
+      exists (VNames nl'), st. split; [|split; [reflexivity|split; [discriminate|intros _; left; exists te; split; assumption]]].
+      cbn [parse_field]. unfold get_remaining, rem_fuel. rewrite grl_unfold. rewrite HX. cbn [bind].
+      assert (Heol : is_eol_or_eof (utok t1) = false) by reflexivity. rewrite Heol.
+      rewrite E2. cbn [bind rev app fst snd].
+      change (utok t1 :: map utok ts') with (map utok (t1 :: ts')). rewrite Hback. reflexivity.
+  - (* FNameNoRel *)
+    destruct Hv as (V & HB). specialize (HR1 eq_refl).
+    unfold name_to_styled_text in Hp.
+    destruct (choose_relativity n (s_origin sty) (s_relativize sty)) as [n1| |] eqn:E1; cbn [bind] in Hp; try discriminate.
+    inversion Hp; subst ftext.
+    destruct (choose_relativity_ok _ _ _ _ V HB HO E1) as [V1 B1].
+    destruct (name_text_word n1 V1 B1) as (Hu & Hne & Hh).
+    exists (mkTok tIDENT (NameM.to_text n1) (has_bs (NameM.to_text n1)) None), (stq false R).
+    split; [apply get0_word_q; assumption|]. split; [reflexivity|]. split.
+    { unfold tok_plain, is_identifier. cbn [ttype tvalue]. rewrite Hh. repeat split; reflexivity. }
+    split; [apply stq_len_word|].
+    intros stX HX _.
+    destruct (name_path sty (mkPctx None false None) n) as [n'| |] eqn:E2; cbn [bind] in He; try discriminate. inversion He; subst v'.
+    exists (VName n'), (stq false R). split; [|split; [reflexivity|split; [intros _; exists false; reflexivity|discriminate]]].
+    cbn [parse_field]. unfold get_name. rewrite HX. cbn [bind fst snd].
+    rewrite (as_name_printed sty (mkPctx None false None) n (NameM.to_text n1)) by (auto; unfold name_to_styled_text; rewrite E1; reflexivity).
+    rewrite E2. reflexivity.
+  - (* FB64RestOpt *)
+    destruct Hv as (Hb & Hl). inversion He; subst v'. specialize (HR2 eq_refl). inversion Hp; subst ftext. clear Hp.
+    destruct b as [|x b'].
+    + cbn [is_nil app].
+      destruct (get0_end_q_len q bl R Hbl HR2) as (t & st & H1 & H2 & H3 & H4 & H5 & E).
+      exists t, st. split; [exact E|]. split; [exact H4|]. split.
+      { destruct (eol_not_ws t H1) as [A B]. unfold tok_plain. rewrite A, B, H2. repeat split; reflexivity. }
+      split; [unfold stq; cbn [inp]; rewrite !app_length; lia|].
+      intros stX HX _.
+      assert (Hst : exists st2, unget st t = Ok st2 /\ ungot st2 = Some t).
+      { unfold unget. rewrite H4. eexists. split; reflexivity. }
+      destruct Hst as (st2 & U1 & U2).
+      exists (VBytes []), st2. split; [|split; [reflexivity|split; [discriminate|intros _; left; exists t; split; assumption]]].
+      cbn [parse_field]. unfold concatenate_remaining_identifiers, rem_fuel. rewrite cri_unfold. unfold get_unescaped.
+      rewrite HX. cbn [bind fst snd]. unfold unescape. rewrite H3. cbn [negb bind fst snd]. rewrite H1, U1.
+      cbn [bind fst snd orb negb is_nil utf8_encode]. reflexivity.
+    + change (is_nil (x :: b')) with false. cbv iota. set (s := x :: b') in *.
+      destruct (b64encode_safe s Hb) as [Hs Ha].
+      assert (Hch : chunked (b64encode s) (b64encode s)) by (apply chunked_single; exact Hs).
+      assert (Hne' : b64encode s <> []) by (unfold s; destruct b' as [|y [|z b'']]; discriminate).
+      replace (bl ++ (32 :: b64encode s) ++ R) with ((bl ++ [32]) ++ b64encode s ++ R) by (rewrite <- app_assoc; reflexivity).
+      destruct (rest_bytes_ok b64decode (b64encode s) s _ R q (bl ++ [32]) Hch Hne' Ha (b64decode_b64encode s Hb)
+                  ltac:(rewrite forallb_app, Hbl; reflexivity) HR2)
+        as (t1 & s1 & G1 & G2 & G3 & G4 & G5).
+      exists t1, s1. split; [exact G1|]. split; [exact G2|]. split; [exact G3|]. split; [exact G4|]. intros stX HX HL.
+      destruct (G5 stX HX HL true) as (se & te & P1 & P2 & P3).
+      exists (VBytes s), se. split; [exact P1|]. split; [|split; [discriminate|intros _; left; exists te; split; assumption]].
+      cbn [ctor_field]. replace (zlen s >? 65535) with false by lia. reflexivity.
 Qed.
 
 (* ---------- the whole field list ---------- *)
-Definition sep_before (f : tfield) : list Z := match f with FBitmap => [] | _ => [32] end.
+Notation sep_before := field_sep.
 
 Lemma print_fields_cons sty f f2 fs v vs text :
   print_fields sty (f :: f2 :: fs) (v :: vs) = Ok text ->
@@ -530,18 +698,32 @@ Proof.
 Qed.
 
 (* what follows a non-last field is a blank, or (before an empty bitmap) the end of the line *)
+(* the text of a field that brings its own separator is empty or starts with a blank *)
+Lemma tail_text_shape sty f v b : field_sep f = [] -> print_field sty f v = Ok b -> b = [] \/ exists b', b = 32 :: b'.
+Proof.
+  intros Hs Hp. destruct f; try discriminate; destruct v as [z|x|n|l|ws|nl]; try discriminate; cbn [print_field] in Hp.
+  - (* FBitmap *) destruct ws as [|w ws]; [inversion Hp; left; reflexivity|]. cbn [bitmap_to_text] in Hp.
+    destruct (map_res rdtype_to_text (window_types (fst w) 0 (snd w))); cbn [bind] in Hp; try discriminate.
+    destruct (bitmap_to_text ws); cbn [bind] in Hp; try discriminate. inversion Hp. right. eexists. reflexivity.
+  - (* FQOpt *) destruct (is_nil x); inversion Hp; [left; reflexivity|right; eexists; reflexivity].
+  - (* FNamesRest *) destruct (map_res (name_to_styled_text sty) nl) as [ts| |]; cbn [bind] in Hp; try discriminate.
+    inversion Hp. destruct ts as [|t ts]; [left; reflexivity|right; cbn [flat_map app]; eexists; reflexivity].
+  - (* FB64RestOpt *) destruct (is_nil x); inversion Hp; [left; reflexivity|right; eexists; reflexivity].
+Qed.
+
+Lemma field_sep_cases f : (field_sep f = [32]) \/ (field_sep f = [] /\ is_rest f = true).
+Proof. destruct f; auto. Qed.
+
 Lemma after_field_word_end sty f2 fs vs b rest : line_end rest -> schema_wf (f2 :: fs) ->
   print_fields sty (f2 :: fs) vs = Ok b -> word_end (sep_before f2 ++ b ++ rest).
 Proof.
-  intros Hr Hwf Hp. destruct f2; try (cbn [sep_before app]; apply word_end_blank).
-  destruct fs as [|f3 fs]; [|destruct Hwf as [Hx _]; discriminate].
-  cbn [sep_before app]. destruct vs as [|v [|v2 vs]]; [discriminate| |cbn [print_fields] in Hp; destruct (print_field sty FBitmap v); cbn [bind] in Hp; discriminate].
-  cbn [print_fields] in Hp.
-  destruct v as [| | | |ws]; try discriminate. cbn [print_field] in Hp. destruct ws as [|w ws].
-  - inversion Hp; subst b. cbn [app]. apply line_end_word_end, Hr.
-  - cbn [bitmap_to_text] in Hp.
-    destruct (map_res rdtype_to_text (window_types (fst w) 0 (snd w))); cbn [bind] in Hp; try discriminate.
-    destruct (bitmap_to_text ws); cbn [bind] in Hp; try discriminate. inversion Hp; subst b. cbn [app]. apply word_end_blank.
+  intros Hr Hwf Hp. destruct (field_sep_cases f2) as [E|[E Er]]; rewrite E; [cbn [app]; apply word_end_blank|].
+  destruct fs as [|f3 fs]; [|destruct Hwf as [Hx _]; congruence].
+  cbn [app]. destruct vs as [|v [|v2 vs]]; [destruct f2; discriminate| |].
+  - cbn [print_fields] in Hp. destruct (tail_text_shape sty f2 v b E Hp) as [->|[b' ->]].
+    + cbn [app]. apply line_end_word_end, Hr.
+    + cbn [app]. apply word_end_blank.
+  - cbn [print_fields] in Hp. destruct (print_field sty f2 v); cbn [bind] in Hp; discriminate.
 Qed.
 
 Lemma sep_before_blank f : forallb is_blank (sep_before f) = true.
@@ -569,9 +751,11 @@ Proof.
     destruct (G5 stX HX HL) as (raw & se & P1 & Pc & P2 & P3). exists [raw], se.
     cbn [parse_fields ctor_fields]. rewrite P1. cbn [bind fst snd]. rewrite Pc. cbn [bind].
     split; [reflexivity|]. split; [reflexivity|]. unfold ends_ok.
-    destruct (is_rest f) eqn:Er.
-    + destruct (P3 eq_refl) as (te & Hu & Hte). destruct (get_eol_ungot se te Hu Hte) as (st' & E). eauto.
-    + destruct (P2 eq_refl) as (q' & ->).
+    assert (Hend : (exists te, ungot se = Some te /\ is_eol_or_eof te = true) \/ exists q', se = stq q' rest).
+    { destruct (is_rest f) eqn:Er; [exact (P3 eq_refl)|right; exact (P2 eq_refl)]. }
+    destruct Hend as [(te & Hu & Hte)|(q' & ->)].
+    + destruct (get_eol_ungot se te Hu Hte) as (st' & E). eauto.
+    +
       destruct (get0_end_q q' [] rest eq_refl Hrest) as (te & st' & H1 & _ & _ & _ & E).
       cbn [app] in E. exists te, st'. unfold get_eol_as_token. rewrite E. cbn [bind fst]. rewrite H1. reflexivity.
   - (* a field followed by others *)
